@@ -108,6 +108,40 @@ def direct(prop, ops):
                 m = re.search(r"stale=(\d+)", l)
                 if m and int(m.group(1)) > 0:
                     out.append(Finding(prop, i, sig(i, "stale-id-valid"), l[-40:]))
+    if prop == "C16":
+        # ids of components / events / handlers: once an id has been seen and is gone, it is never handed out again
+        seen = {"c": {}, "e": {}, "h": {}}
+        for i, (op, obs) in enumerate(ops):
+            for l in lines_of(obs, "reg "):
+                m = re.match(r"reg c:(\S*) e:(\S*) h:(\S*) stale=", l)
+                if not m:
+                    continue
+                for kind, part in zip("ceh", m.groups()):
+                    cur = dict(x.split("=") for x in part.split(",") if "=" in x)
+                    if kind == "e":
+                        # global and targeted events are two registries
+                        pass
+                    for name, ident in cur.items():
+                        reg = kind if kind != "e" else ("t" if (name[0] == "T" or name == "Despawn" or name.startswith(("InsK", "RemK"))) else "g")
+                        hist = seen.setdefault(reg, {})
+                        prev = hist.get(ident)
+                        if prev is not None and prev[1]:
+                            out.append(Finding(prop, i, sig(i, "id-reissued"), f"id {ident} of removed {prev[0]} handed out again to {name}"))
+                        hist[ident] = (name, False)
+                    for reg, hist in seen.items():
+                        pass
+                # mark ids that are no longer present as removed
+                present = set()
+                for kind, part in zip("ceh", m.groups()):
+                    for x in part.split(","):
+                        if "=" in x:
+                            name, ident = x.split("=")
+                            reg = kind if kind != "e" else ("t" if (name[0] == "T" or name == "Despawn" or name.startswith(("InsK", "RemK"))) else "g")
+                            present.add((reg, ident))
+                for reg, hist in seen.items():
+                    for ident, (name, gone) in list(hist.items()):
+                        if (reg, ident) not in present:
+                            hist[ident] = (name, True)
     if prop == "C17":
         for i, (op, obs) in enumerate(ops):
             for l in lines_of(obs, "pend "):
@@ -116,7 +150,8 @@ def direct(prop, ops):
                     out.append(Finding(prop, i, sig(i, "pending-at-quiescence"), l))
             snap = [l[5:] for l in obs if l.startswith("snap ")]
             if snap:
-                for problem in snapshot_invariants(snap):
+                hinfo = [l[6:] for l in obs if l.startswith("hinfo ")]
+                for problem in snapshot_invariants(snap, hinfo):
                     out.append(Finding(prop, i, sig(i, "snapshot:" + problem.split(":")[0]), problem))
     if prop == "C05":
         out += accept_oracle(prop, ops, sig)
@@ -292,9 +327,44 @@ def parse_list(s):
     return [x for x in s[1:-1].split(",") if x]
 
 
-def snapshot_invariants(snap):
+def parse_dnf(text):
+    """`ComponentAccess { cases: [[(ComponentIdx(0), Read), (ComponentIdx(1), Not)], []] }` -> [[(0,'Read'),(1,'Not')],[]]"""
+    m = re.search(r"cases: (\[.*\]) \}", text)
+    if not m:
+        return None
+    body = m.group(1)
+    cases = []
+    depth = 0
+    cur = None
+    for mm in re.finditer(r"\[|\]|\(ComponentIdx\((\d+)\), (\w+)\)", body):
+        tok = mm.group(0)
+        if tok == "[":
+            depth += 1
+            if depth == 2:
+                cur = []
+        elif tok == "]":
+            if depth == 2:
+                cases.append(cur)
+                cur = None
+            depth -= 1
+        elif cur is not None:
+            cur.append((int(mm.group(1)), mm.group(2)))
+    return cases
+
+
+def dnf_matches(cases, comps):
+    return any(all((c not in comps) if a == "Not" else (c in comps) for c, a in case) for case in cases)
+
+
+def snapshot_invariants(snap, hinfo=()):
     """The quiescent-point invariant of C17, evaluated on the implementation's own snapshot."""
     problems = []
+    handlers = {}
+    for l in hinfo:
+        m = re.match(r"(\d+v\d+) recv=([gt])(\d+) prio=([hml]) filter=(.*) archfilter=(.*)$", l)
+        if m:
+            filt = parse_dnf(m.group(5)) if m.group(5) != "None" else None
+            handlers[m.group(1)] = dict(kind=m.group(2), ev=int(m.group(3)), prio=m.group(4), filter=filt, arch=parse_dnf(m.group(6)))
     archs = {}
     locs = {}
     live_handlers = set()
@@ -334,6 +404,14 @@ def snapshot_invariants(snap):
                 problems.append("queue:len " + m.group(1))
     if 0 not in archs or archs[0]["comps"]:
         problems.append("empty-archetype:missing")
+    for l in snap:
+        m = re.match(r"member (\d+) (\[.*\])$", l)
+        if m:
+            c = int(m.group(1))
+            got = sorted(int(x) for x in parse_list(m.group(2)))
+            exp = sorted(i for i, a in archs.items() if c in a["comps"])
+            if got != exp:
+                problems.append(f"member_of:component {c} lists archetypes {got}, archetypes having it: {exp}")
     seen_sets = {}
     for idx, a in archs.items():
         if a["index"] != idx:
@@ -366,6 +444,27 @@ def snapshot_invariants(snap):
                     problems.append(f"event-listener:{idx} event {t} names dead handler {h}")
             if not (before <= after <= len(entries)):
                 problems.append(f"listener-cursors:{idx} event {t} before={before} after={after} n={len(entries)}")
+    if handlers:
+        # listener tables name exactly the live handlers whose filter matches, by priority then insertion order; refresh
+        # sets are exactly the handlers whose archetype filter matches
+        hord = []
+        for l in snap:
+            if l.startswith("hord "):
+                hord = parse_list(l[5:])
+        rank = {"h": 0, "m": 1, "l": 2}
+        for idx, a in archs.items():
+            comps = set(a["comps"])
+            exp_refresh = sorted(h for h in hord if h in handlers and handlers[h]["arch"] is not None and dnf_matches(handlers[h]["arch"], comps))
+            if sorted(a["refresh"]) != exp_refresh:
+                problems.append(f"refresh-set:{idx}{a['comps']} has {sorted(a['refresh'])}, archetype filters select {exp_refresh}")
+            evs = {h["ev"] for h in handlers.values() if h["kind"] == "t"} | set(a["listeners"].keys())
+            for t in evs:
+                exp = [h for h in hord if h in handlers and handlers[h]["kind"] == "t" and handlers[h]["ev"] == t
+                       and handlers[h]["filter"] is not None and dnf_matches(handlers[h]["filter"], comps)]
+                exp = sorted(exp, key=lambda h: (rank[handlers[h]["prio"]], hord.index(h)))
+                got = a["listeners"].get(t, (0, 0, []))[2]
+                if got != exp:
+                    problems.append(f"listener-table:{idx}{a['comps']} event {t} lists {got}, filters select {exp}")
     for e, (a, r) in locs.items():
         if a not in archs or r >= len(archs[a]["ids"]) or archs[a]["ids"][r] != e:
             problems.append(f"location:{e} recorded at {a}:{r} but not stored there")
@@ -382,18 +481,31 @@ def canon(prop):
 
     def f(ch, lines, op):
         out = []
+        if ch == "arch":
+            # slab indices, free-list order and handler ids are incidental: the snapshot is judged by its invariants
+            # (direct judge on the implementation's own snapshot, executable `Inv` on the model), not by equality
+            return []
         for l in lines:
+            if ch == "ids":
+                l = re.sub(r"\d+v\d+", "id", l)      # which index/generation is handed out is incidental; uniqueness is judged directly
+            if ch == "reg":
+                l = re.sub(r"=\d+v\d+", "", l)
             if ch == "trace":
                 # registry ids inside Add*/Rem* renders are incidental
                 l = re.sub(r"\((\d+v\d+)\)", "(id)", l)
+                # an entity id that has no ordinal yet (a world-level spawn in progress): which slot is reused is incidental
+                l = re.sub(r"\?\d+v\d+", "?id", l)
             if ch == "ret" and l.startswith(("ub ", "assert ")):
                 l = "model-marker"
             if ch == "ret" and l.startswith("panic internal"):
                 l = "model-marker"
             out.append(l)
         if ch == "trace" and op.startswith("rmc "):
-            # the order in which the entities of a removed component are despawned follows slab iteration
-            out = sorted(out)
+            # the order in which the entities of a removed component are despawned follows slab iteration; serials and
+            # ordinals handed out inside the cascade follow that order
+            out = sorted(re.sub(r"\(s\d+\)", "(s)", re.sub(r"#\d+", "#", l)) for l in out)
+        if ch in ("evdrops", "cdrops", "store") and op.startswith("rmc "):
+            out = [re.sub(r"#\d+", "#", l) for l in out] if ch == "store" else out
         return out
 
     return f
